@@ -85,7 +85,15 @@ def gen_case(r, shape):
             leaf = leaf.replace(args=tuple(args))
         elif sg == "varkw":
             kw = dict(leaf.kwargs)
-            kw[r.choice(list(kw))] = special_arg(r)
+            if r.coin(40):
+                # keyword NAMES that make the keyword mapping itself look like a path spec (or an escaped one)
+                k0 = r.choice(list(kw))
+                v0 = kw.pop(k0)
+                if r.coin():
+                    kw = {}  # a single keyword
+                kw[r.choice(["path", "path.first", "Path", "PATH.length", "cfg\\path", "\\path", "\\Path.x", "path.nope"])] = v0
+            else:
+                kw[r.choice(list(kw))] = special_arg(r)
             leaf = leaf.replace(kwargs=kw)
     t = leaf
     kinds = {kind}
